@@ -1,1 +1,57 @@
 # claim(pid, category, text, note, technique, design_ref) — one call per claimed property.
+NOTE_COMMON = ("Trusted: Coq 8.16.1 kernel + vm_compute (no native_compute, no axioms: Print Assumptions is 'Closed under the global "
+               "context' for every property theorem); the Go harness (generators, observers, emitters of Gallina terms); Go's regexp/"
+               "regexp/syntax/unicode/utf8 as oracle; the python runner. Modelled rather than verified: the Go control skeletons the "
+               "models copy by hand (tied by per-run correspondence), assembly kernels (observed only).")
+
+claim("C04", "proof",
+      "Coq theorems: every enumeration loop (FindAll*, Count, FindAllSubmatch, AllIndex, AppendAllIndex, streaming searcher) equals regexp's "
+      "allMatches for all haystacks, all single-match functions satisfying the stated hypotheses, all n and dst. Per run: observed "
+      "single-match tables and enumeration results are re-evaluated inside Coq against the specification and the loop model; Go side: "
+      "30 APIs vs regexp on a fixed corpus, differences classified by replay (loop vs single-match layer) with an exact ledger.",
+      NOTE_COMMON + " The single-match layer is a parameter of the theorems (C02/C03/C14 are about it).",
+      "Coq proof (loop refinement to stdlib's allMatches) + in-Coq evaluation of observed traces + differential replay", "9/C04")
+claim("C06", "proof",
+      "Coq theorems about the interleaving model of the per-search state hand-out (atomic slot + pool): exclusive ownership, no "
+      "conflicting access, concurrent = sequential, for any number of goroutines and any schedule; the protocol is re-extracted from the "
+      "source on every run and checked inside Coq. Runtime part observed: -race replay from 2 and 8 goroutines on shared Regex values, "
+      "race reports classified by call site, results compared with sequential results. PARTIAL: Go memory model/scheduler not modelled.",
+      NOTE_COMMON + " The race detector only sees executed interleavings; the go/ast protocol extractor is trusted.",
+      "Coq proof (invariant over interleavings) + protocol extraction + race-detector replay", "9/C06")
+claim("C08", "proof",
+      "Coq theorems: coregex's expand equals regexp's expand/extract and the declarative template specification; the five replace loops "
+      "equal regexp's replaceAll; Split equals regexp's Split - for all inputs. Per run: observed outputs re-evaluated inside Coq; Go side: "
+      "nine functions vs regexp byte-for-byte on a fixed corpus with engine-vs-layer attribution by replay and an exact ledger.",
+      NOTE_COMMON, "Coq proof (scanner = spec, loop refinement) + in-Coq evaluation of observed outputs + differential replay", "9/C08")
+claim("C09", "proof",
+      "Coq theorems for the modelled functions: QuoteMeta (= regexp's, round trip, matches exactly s), capture metadata traversal, "
+      "SubexpIndex, Copy/Marshal value model, nesting-depth guard. Parser-dependent behaviour (accept/reject, error text, LiteralPrefix, "
+      "POSIX mode) is compared with regexp on valid / nearly valid / nested / POSIX-only / Perl-only patterns. PARTIAL: the parser is "
+      "regexp/syntax itself (shared with the oracle), not modelled.",
+      NOTE_COMMON, "Coq proof (QuoteMeta, metadata) + differential comparison with regexp incl. error text", "9/C09")
+claim("C13", "proof",
+      "Coq theorems: the bounded backtracker's reusable state (generation-stamped table, re-slicing, both wrap branches) keeps invariant "
+      "bt_inv; every result equals the state-free reference search and is independent of any call history; the original wrap code is "
+      "refuted. Per run: observed histories on one BacktrackerState replayed on the model inside Coq; API-level call histories (11 APIs, "
+      "GC, tiny DFA limits) on one Regex vs a fresh value per call.",
+      NOTE_COMMON + " PikeVM scratch and lazy-DFA cache contents are observed through the API histories only.",
+      "Coq proof (state invariant + refinement to reference DFS) + in-Coq replay of observed histories + aged-vs-fresh histories", "9/C13")
+claim("C16", "proof",
+      "Coq theorems: Teddy (slim/fat) Find = least literal occurrence and FindMatch = leftmost-first span for every haystack, given the "
+      "certified mask check on the masks/buckets dumped from the current code and the weak contract of the SIMD candidate finder; "
+      "wrappers, tracker, digit, memchr/memmem prefilters reduce to their specs. Per run: masks_ok evaluated inside Coq on dumped masks; "
+      "every prefilter kind vs the naive definition over structured haystacks; assembly candidate finders checked against the contract.",
+      NOTE_COMMON + " Aho-Corasick (another module) by observation only.",
+      "Coq proof + certified artifact check (masks_ok on dumped masks) + differential vs naive scan", "9/C16")
+claim("C17", "proof",
+      "Coq: certified cover checkers (prefix/suffix/inner/complete) with soundness theorems over all haystacks and all matches of the "
+      "compiled NFA, evaluated per run on literal sets extracted by the current code under 12 limit configurations; Seq algebra "
+      "preservation theorems and refutations of faithful models of extractor steps. Go side: regexp-confirmed members vs literal sets "
+      "on a fixed corpus with an exact ledger of recorded failing inputs.",
+      NOTE_COMMON + " Look assertions are relaxed in the checkers (only `Covered` verdicts are trusted).",
+      "Certified checker in Coq on regenerated artifacts + Coq proofs of the Seq algebra + member sampling", "9/C17")
+claim("C18", "proof",
+      "Coq theorems: every pure-Go SWAR/scalar primitive (memchr/2/3, pair, digit, word, table, ASCII tests, memmem) equals its scalar "
+      "definition for all inputs (has_zero_byte_first over all 2^64 words). Assembly kernels: exhaustive-bounded observation (lengths, "
+      "hit positions, alignments, guard pages, AVX2 on/off) against the same definitions; a sample re-evaluated inside Coq.",
+      NOTE_COMMON, "Coq proof (SWAR lane induction) + exhaustive-bounded differential for assembly", "9/C18")
